@@ -319,6 +319,17 @@ Proof. destruct r as [[p|] [i|] [mn|] [mx|]]; reflexivity. Qed.
 Lemma l_or_none_some {A} (l p: list A) : l_or_none l = Some p -> p = l /\ l <> [].
 Proof. destruct l; cbn; intros H; inversion H; split; [reflexivity|discriminate]. Qed.
 
+Lemma uschema_tuple_kws (r: tschema schema) :
+  uschema_of (S (tuple_kws r)) = mkU (t_prefix r) (t_items r) (t_min r) (t_max r).
+Proof. destruct r as [[p|] [i|] [mn|] [mx|]]; reflexivity. Qed.
+
+Lemma tuple_kws_prefix_len' (r: tschema schema) :
+  get_prefix_len (tuple_kws r) = List.length (ol_or_nil (t_prefix r)).
+Proof. destruct r as [[[|x p]|] [i|] [mn|] [mx|]]; reflexivity. Qed.
+
+Lemma skipn_app_exact {A} (l1 l2: list A) n : skipn (List.length l1 + n) (l1 ++ l2)%list = skipn n l2.
+Proof. induction l1 as [|x r IH]; [reflexivity|]. cbn. exact IH. Qed.
+
 Section Sound.
   Variable pm : string -> string -> bool.
   (* the regular-expression oracle accepts the rendering of every whole-minute offset
@@ -377,120 +388,136 @@ Section Sound.
       unfold tuple_kws. cbn [t_prefix t_items t_min t_max l_or_none]. rewrite Hz. reflexivity.
   Qed.
 
-  (* what the kernel reads of the schema of the unpacked segment, with the facts the outer tuple needs:
-     the segment's elements validate against its prefix / items, and its length is within its bounds *)
-  Lemma unpack_inner_facts n (IHs: forall n', n' <= n -> sound_at n') cur base m m' k (Hk: 2 * n + 1 <= k) it lm jm s_in :
+  (* ---------- fixed / variadic tuple types, any nesting of Unpack: the facts a schema in tuple form states
+     about an array, established for the serialization of a conforming value ---------- *)
+  Definition tfacts (k: nat) (R: tschema schema) (js: list json) : Prop :=
+    let P := ol_or_nil (t_prefix R) in
+    List.length P <= List.length js /\
+    forallb2 (fun s' x => jvalid pm defs k s' x) P js = true /\
+    (forall si, t_items R = Some si -> forallb (jvalid pm defs k si) (skipn (List.length P) js) = true) /\
+    (oz_or (t_min R) 0 <= Z.of_nat (List.length js))%Z /\
+    (forall mx, t_max R = Some mx -> (Z.of_nat (List.length js) <= mx)%Z) /\
+    (0 <= oz_or (t_min R) 0)%Z.
+
+  Lemma tfacts_jvalid k R js : tfacts k R js -> jvalid pm defs (Sn k) (S (tuple_kws R)) (JArr js) = true.
+  Proof.
+    intros (F1 & F2 & F3 & F4 & F5 & F6). rewrite jvalid_S. cbn [kws_of]. apply tuple_kws_all.
+    - reflexivity.
+    - intros p Hp. rewrite Hp in F2. cbn [kw_ok]. destruct p; [reflexivity|exact F2].
+    - intros si Hsi. cbn [kw_ok]. rewrite tuple_kws_prefix_len'. exact (F3 si Hsi).
+    - intros z Hz. rewrite Hz in F4. cbn [kw_ok]. apply Z.leb_le. unfold oz_or in F4.
+      destruct (Z.eqb_spec z 0); lia.
+    - intros z Hz. cbn [kw_ok]. apply Z.leb_le. exact (F5 z Hz).
+  Qed.
+
+  Lemma tuple_tfacts : forall n, (forall n', n' < n -> sound_at n') ->
+    forall cur base m m' k it lm jm s_in, 2 * n <= k + 1 ->
     unpack_inner_ok it = true ->
     enc_ok n E cur base it (VList lm) (JArr jm) = true ->
     ty_ok m' E cur base it = true ->
     schema_f E dl ar cur m it = Some s_in ->
-    let u0 := uschema_of s_in in
-    List.length (uprefix u0) <= List.length jm /\
-    forallb2 (fun s' x => jvalid pm defs k s' x) (uprefix u0) jm = true /\
-    (forall si, u_items u0 = Some si -> uprefix u0 = [] /\ forallb (jvalid pm defs k si) jm = true) /\
-    (umin u0 <= Z.of_nat (List.length jm))%Z /\
-    (forall mx, u_max u0 = Some mx -> (Z.of_nat (List.length jm) <= mx)%Z) /\
-    (0 <= umin u0)%Z.
+    exists R, s_in = S (tuple_kws R) /\ tfacts k R jm.
   Proof.
-    intros Hin He Hok Hs u0. destruct n as [|n']; [discriminate|]. destruct m as [|m0]; [discriminate|].
-    destruct m' as [|m1]; [discriminate|].
+    induction n as [n IHn] using lt_wf_ind. intros IHs cur base m m' k it lm jm s_in Hk Hin He Hok Hs.
+    destruct n as [|n0]; [discriminate|]. destruct m as [|m0]; [discriminate|]. destruct m' as [|m1]; [discriminate|].
+    assert (IH0: sound_at n0) by (apply IHs; lia).
+    assert (Hk0: 2 * n0 + 1 <= k) by lia.
     destruct it; try discriminate.
     - (* Tuple[T, ...] *)
       destruct keep; [|discriminate]. cbn [enc_ok] in He. cbn [schema_f] in Hs. cbn [ty_ok] in Hok.
       destruct (schema_f E dl ar cur m0 it) as [st|] eqn:Est; [|discriminate]. inv Hs.
       apply andb_true_iff in Hok. destruct Hok as [_ Hok].
       assert (Hall: forallb (jvalid pm defs k st) jm = true).
-      { eapply all2_forallb; [|exact He]. intros x y _ Hxy.
-        eapply (IHs n' ltac:(lia) _ _ _ _ _ Hxy m0 m1 st); eauto. lia. }
-      subst u0. unfold opt_kw. destruct (is_empty_schema st) eqn:Eemp; cbn;
-        refine (conj _ (conj _ (conj _ (conj _ (conj _ _))))); try lia; try reflexivity; try discriminate.
-      intros si Hsi. inv Hsi. split; [reflexivity|assumption].
-    - (* fixed tuple without Unpack *)
-      cbn [unpack_inner_ok] in Hin. destruct (plain_tuple_schema cur m0 args s_in Hin Hs) as (ss & Ess & ->).
-      cbn [enc_ok] in He. rewrite (no_unpack_find _ Hin) in He.
-      apply andb_true_iff in He. destruct He as [He Hl2]. apply andb_true_iff in He. destruct He as [He Hl1].
-      apply Nat.eqb_eq in Hl1. apply Nat.eqb_eq in Hl2.
-      cbn [ty_ok] in Hok. apply andb_true_iff in Hok. destruct Hok as [Hoks _].
-      pose proof (prefix_ok (@snd bool ty) n' (IHs n' ltac:(lia)) cur base m0 m1 k ltac:(lia) _ _ _ _ He Ess Hoks) as Hp.
-      pose proof (omap_length _ _ _ Ess) as Hlen.
-      assert (Hjl: List.length jm = List.length ss) by lia.
-      subst u0. destruct ss as [|s0 ss'].
-      + cbn. destruct jm; [|discriminate].
-        refine (conj _ (conj _ (conj _ (conj _ (conj _ _))))); try (cbn; lia); try reflexivity.
-        * intros si Hsi. discriminate.
-        * intros mx Hmx. inv Hmx. cbn. lia.
-      + assert (Hnz: (zlen (s0 :: ss') =? 0)%Z = false).
-        { apply Z.eqb_neq. unfold zlen. cbn [List.length]. lia. }
-        unfold uschema_of, uprefix, umin. cbn [kws_of get_kw_prefix get_kw_items get_kw_min get_kw_max u_prefix u_items u_min u_max ol_or_nil oz_or].
-        rewrite Hnz. unfold zlen in *.
-        refine (conj _ (conj _ (conj _ (conj _ (conj _ _))))); try lia; try assumption.
-        * intros si Hsi. discriminate.
-        * intros mx Hmx. injection Hmx as Hmx. rewrite <- Hmx, Hjl. apply Z.le_refl.
-  Qed.
-
-  (* a fixed tuple with one Unpack segment: every element validates against prefixItems / items and the
-     length is within [minItems, maxItems] *)
-  Lemma tuple_unpack_sound n (IHs: forall n', n' <= n -> sound_at n') cur base m m' k (Hk: 2 * n + 1 <= k)
-        (before after: list (bool * ty)) (it: ty) (lb lm la: list value) (jb jm ja: list json) s :
-    no_unpack before = true -> no_unpack after = true -> unpack_inner_ok it = true ->
-    all2 (fun (a: bool * ty) (p: value * json) => enc_ok n E cur base (snd a) (fst p) (snd p)) before (combine lb jb) = true ->
-    List.length lb = List.length jb -> List.length lb = List.length before ->
-    enc_ok n E cur base it (VList lm) (JArr jm) = true ->
-    List.length la = List.length ja -> List.length la = List.length after ->
-    forallb (fun a: bool * ty => ty_ok m' E cur base (snd a)) (before ++ (true, it) :: after)%list = true ->
-    schema_f E dl ar cur (Sn m) (TTuple (before ++ (true, it) :: after)%list) = Some s ->
-    jvalid pm defs (Sn k) s (JArr (jb ++ jm ++ ja)%list) = true.
-  Proof.
-    intros Hnb Hna Hin Hb Hlb1 Hlb2 Hi Hla1 Hla2 Hok Hs.
-    cbn [schema_f] in Hs.
-    destruct (before ++ (true, it) :: after)%list as [|a0 r0] eqn:Eargs; [destruct before; discriminate|].
-    rewrite <- Eargs in *. clear a0 r0 Eargs.
-    match type of Hs with context [omap ?G ?L] => destruct (omap G L) as [targs|] eqn:Eo; [|discriminate] end.
-    inv Hs.
-    destruct (omap_app _ _ _ _ Eo) as (tb & r2 & Eb & E2 & ->).
-    cbn [omap fst snd] in E2.
-    destruct (schema_f E dl ar cur m it) as [s_in|] eqn:Ein; [|discriminate].
-    match type of E2 with context [omap ?G after] => destruct (omap G after) as [ta|] eqn:Ea; [|discriminate] end.
-    inv E2.
-    destruct (tuple_plain _ _ Hnb _ Eb) as (sb & -> & Esb).
-    destruct (tuple_plain _ _ Hna _ Ea) as (sa & -> & Esa).
-    rewrite forallb_app in Hok. apply andb_true_iff in Hok. destruct Hok as [Hokb Hok].
-    cbn [forallb snd] in Hok. apply andb_true_iff in Hok. destruct Hok as [Hoki Hoka].
-    pose proof (prefix_ok (@snd bool ty) n (IHs n (le_n n)) cur base m m' k Hk _ _ _ _ Hb Esb Hokb) as Hpb.
-    destruct (unpack_inner_facts n IHs cur base m m' k Hk it lm jm s_in Hin Hi Hoki Ein) as (F1 & F2 & F3 & F4 & F5 & F6).
-    set (u0 := uschema_of s_in) in *.
-    pose proof (omap_length _ _ _ Esb) as Lsb. pose proof (omap_length _ _ _ Esa) as Lsa.
-    assert (Lb: List.length sb = List.length jb) by lia.
-    assert (La: List.length sa = List.length ja) by lia.
-    rewrite on_tuple_k_spec, spec_one_unpack. rewrite jvalid_S. cbn [kws_of].
-    set (R := mkT (l_or_none (sb ++ uprefix u0)%list) (if (zlen sa =? 0)%Z then u_items u0 else None)
-                  (z_or_none (zlen sb + zlen sa + umin u0)%Z)
-                  (z_or_none (match u_max u0 with Some mx => (zlen sb + zlen sa + mx)%Z | None => 0%Z end))).
-    assert (Hlen: Z.of_nat (List.length (jb ++ jm ++ ja)%list) = (zlen sb + zlen sa + Z.of_nat (List.length jm))%Z).
-    { rewrite !app_length. unfold zlen. lia. }
-    apply tuple_kws_all.
-    - reflexivity.
-    - (* prefixItems *)
-      intros p Hp. cbn [R t_prefix] in Hp. apply l_or_none_some in Hp. destruct Hp as [-> _].
-      cbn [kw_ok]. rewrite forallb2_app by assumption. rewrite Hpb. cbn [andb].
-      rewrite forallb2_le by assumption. exact F2.
-    - (* items: only when the Unpack is the last argument *)
-      intros si Hsi. cbn [R t_items] in Hsi.
-      destruct (zlen sa =? 0)%Z eqn:Ez; [|discriminate].
-      destruct (F3 si Hsi) as [Hup Hall].
-      assert (sa = []) by (apply Z.eqb_eq in Ez; unfold zlen in Ez; destruct sa; [reflexivity|cbn in Ez; lia]).
-      subst sa. destruct ja; [|discriminate].
-      cbn [kw_ok]. rewrite tuple_kws_prefix_len. cbn [R t_prefix]. rewrite Hup, !app_nil_r.
-      assert (Hsk: skipn (match l_or_none sb with Some l => List.length l | None => 0 end) (jb ++ jm)%list = jm).
-      { replace (match l_or_none sb with Some l => List.length l | None => 0 end) with (List.length jb)
-          by (destruct sb; cbn in *; lia).
-        rewrite skipn_app, Nat.sub_diag, skipn_all. reflexivity. }
-      rewrite Hsk. exact Hall.
-    - (* minItems *)
-      intros z Hz. cbn [R t_min] in Hz. apply z_or_none_some in Hz. cbn [kw_ok]. rewrite Hlen. apply Z.leb_le. lia.
-    - (* maxItems *)
-      intros z Hz. cbn [R t_max] in Hz. destruct (u_max u0) as [mx|] eqn:Emx; [|cbn in Hz; discriminate].
-      apply z_or_none_some in Hz. cbn [kw_ok]. rewrite Hlen. apply Z.leb_le. specialize (F5 mx eq_refl). lia.
+      { eapply all2_forallb; [|exact He]. intros x y _ Hxy. eapply (IH0 _ _ _ _ _ Hxy m0 m1 st); eauto. }
+      exists (mkT None (if is_empty_schema st then None else Some st) None None). split.
+      + unfold opt_kw. destruct (is_empty_schema st); reflexivity.
+      + unfold tfacts. cbn. refine (conj _ (conj _ (conj _ (conj _ (conj _ _))))); try lia; try reflexivity.
+        * intros si Hsi. destruct (is_empty_schema st); [discriminate|]. inv Hsi. exact Hall.
+        * intros mx Hmx. discriminate.
+    - (* fixed tuple *)
+      cbn [ty_ok] in Hok. apply andb_true_iff in Hok. destruct Hok as [Hoks Hshape].
+      destruct (no_unpack args) eqn:Hnu; [clear Hshape|].
+      + (* no Unpack *)
+        destruct (plain_tuple_schema cur m0 args s_in Hnu Hs) as (ss & Ess & ->).
+        cbn [enc_ok] in He. rewrite (no_unpack_find _ Hnu) in He.
+        apply andb_true_iff in He. destruct He as [He Hl2]. apply andb_true_iff in He. destruct He as [He Hl1].
+        apply Nat.eqb_eq in Hl1. apply Nat.eqb_eq in Hl2.
+        pose proof (prefix_ok (@snd bool ty) n0 IH0 cur base m0 m1 k Hk0 _ _ _ _ He Ess Hoks) as Hp.
+        pose proof (omap_length _ _ _ Ess) as Hlen.
+        assert (Hjl: List.length jm = List.length ss) by lia.
+        destruct ss as [|s0 ss'].
+        * exists (mkT None None None (Some 0%Z)). split; [reflexivity|]. destruct jm; [|cbn in Hjl; discriminate].
+          unfold tfacts. cbn. refine (conj _ (conj _ (conj _ (conj _ (conj _ _))))); try lia; try reflexivity.
+          intros mx Hmx. inv Hmx. lia.
+        * exists (mkT (Some (s0 :: ss')) None (Some (zlen (s0 :: ss'))) (Some (zlen (s0 :: ss')))). split; [reflexivity|].
+          assert (Hnz: (zlen (s0 :: ss') =? 0)%Z = false) by (apply Z.eqb_neq; unfold zlen; cbn [List.length]; lia).
+          unfold tfacts. cbn [t_prefix t_items t_min t_max ol_or_nil oz_or]. rewrite Hnz. unfold zlen in *.
+          refine (conj _ (conj _ (conj _ (conj _ (conj _ _))))); try lia; try assumption.
+          -- intros si Hsi. discriminate.
+          -- intros mx Hmx. injection Hmx as Hmx. rewrite <- Hmx, Hjl. apply Z.le_refl.
+      + (* one Unpack segment *)
+        cbn [orb] in Hshape. destruct (find_unpack args) as [u|] eqn:Efu; [|discriminate].
+        apply andb_true_iff in Hshape. destruct Hshape as [Hna Hin'].
+        destruct (find_unpack_split _ _ Efu) as (it' & Hnth & Hnb & Hargs).
+        cbn [enc_ok] in He. rewrite Efu in He. rewrite Hnth in Hin', He.
+        apply andb_true_iff in He. destruct He as [He Hrest].
+        apply andb_true_iff in He. destruct He as [He Hle]. apply andb_true_iff in He. destruct He as [_ Hll].
+        apply andb_true_iff in Hrest. destruct Hrest as [Hrest Hafter]. apply andb_true_iff in Hrest. destruct Hrest as [Hbefore Hinner].
+        apply Nat.eqb_eq in Hll. apply Nat.leb_le in Hle.
+        set (na := List.length (skipn (Sn u) args)) in *. set (nm := List.length lm - u - na) in *.
+        assert (Hu: u < List.length args) by (apply nth_error_Some; congruence).
+        set (before := firstn u args) in *. set (after := skipn (Sn u) args) in *.
+        set (jb := firstn u jm) in *. set (jm' := firstn nm (skipn u jm)) in *. set (ja := skipn (u + nm) jm) in *.
+        assert (Hjs: jm = (jb ++ jm' ++ ja)%list) by (apply split3; lia).
+        assert (Llb: List.length (firstn u lm) = List.length jb) by (unfold jb; rewrite !firstn_length_le by lia; reflexivity).
+        assert (Lbb: List.length jb = List.length before) by (unfold jb, before; rewrite !firstn_length_le by lia; reflexivity).
+        assert (Laa: List.length ja = List.length after) by (unfold ja; rewrite skipn_length; fold na; lia).
+        (* schema side *)
+        rewrite Hargs in Hs, Hoks. fold before after in Hs, Hoks.
+        cbn [schema_f] in Hs.
+        destruct (before ++ (true, it') :: after)%list as [|a0 r0] eqn:Eargs; [destruct before; discriminate|].
+        rewrite <- Eargs in *. clear a0 r0 Eargs.
+        match type of Hs with context [omap ?G ?L] => destruct (omap G L) as [targs|] eqn:Eo; [|discriminate] end.
+        injection Hs as Hs. subst s_in.
+        destruct (omap_app _ _ _ _ Eo) as (tb & r2 & Eb & E2 & Etargs). subst targs.
+        cbn [omap fst snd] in E2.
+        destruct (schema_f E dl ar cur m0 it') as [s_in'|] eqn:Ein; [|discriminate].
+        match type of E2 with context [omap ?G after] => destruct (omap G after) as [ta|] eqn:Ea; [|discriminate] end.
+        injection E2 as E2. subst r2.
+        destruct (tuple_plain _ _ Hnb _ Eb) as (sb & Etb & Esb). subst tb.
+        destruct (tuple_plain _ _ Hna _ Ea) as (sa & Eta & Esa). subst ta.
+        rewrite forallb_app in Hoks. apply andb_true_iff in Hoks. destruct Hoks as [Hokb Hoks].
+        cbn [forallb snd] in Hoks. apply andb_true_iff in Hoks. destruct Hoks as [Hoki Hoka].
+        pose proof (prefix_ok (@snd bool ty) n0 IH0 cur base m0 m1 k Hk0 _ _ _ _ Hbefore Esb Hokb) as Hpb.
+        (* the unpacked segment, recursively *)
+        destruct (IHn n0 ltac:(lia) ltac:(intros; apply IHs; lia) cur base m0 m1 k it' _ _ s_in' ltac:(lia) Hin' Hinner Hoki Ein)
+          as (R1 & Esin & (G1 & G2 & G3 & G4 & G5 & G6)). subst s_in'.
+        rewrite uschema_tuple_kws in *.
+        set (u0 := mkU (t_prefix R1) (t_items R1) (t_min R1) (t_max R1)) in *.
+        pose proof (omap_length _ _ _ Esb) as Lsb. pose proof (omap_length _ _ _ Esa) as Lsa.
+        assert (Lb: List.length sb = List.length jb) by lia.
+        assert (La: List.length sa = List.length ja) by lia.
+        rewrite on_tuple_k_spec, spec_one_unpack.
+        eexists. split; [reflexivity|].
+        rewrite Hjs.
+        assert (Hlen: Z.of_nat (List.length (jb ++ jm' ++ ja)%list) = (zlen sb + zlen sa + Z.of_nat (List.length jm'))%Z)
+          by (rewrite !app_length; unfold zlen; lia).
+        unfold tfacts. cbn [t_prefix t_items t_min t_max]. rewrite ol_or_nil_l_or_none, oz_or_z_or_none.
+        change (uprefix u0) with (ol_or_nil (t_prefix R1)). change (umin u0) with (oz_or (t_min R1) 0%Z).
+        change (u_items u0) with (t_items R1). change (u_max u0) with (t_max R1).
+        set (P1 := ol_or_nil (t_prefix R1)) in *.
+        refine (conj _ (conj _ (conj _ (conj _ (conj _ _))))).
+        * rewrite !app_length. lia.
+        * rewrite forallb2_app by assumption. rewrite Hpb. cbn [andb]. rewrite forallb2_le by assumption. exact G2.
+        * intros si Hsi. destruct (zlen sa =? 0)%Z eqn:Ez; [|discriminate].
+          assert (sa = []) by (apply Z.eqb_eq in Ez; unfold zlen in Ez; destruct sa; [reflexivity|cbn in Ez; lia]).
+          subst sa. assert (Hja: ja = []) by (destruct ja; [reflexivity|cbn in La; discriminate]).
+          rewrite Hja, !app_nil_r, app_length, Lb.
+          rewrite skipn_app_exact. exact (G3 si Hsi).
+        * rewrite Hlen. lia.
+        * intros mx Hmx. destruct (t_max R1) as [mx1|] eqn:Emx; [|cbn in Hmx; discriminate].
+          apply z_or_none_some in Hmx. rewrite Hlen. specialize (G5 mx1 eq_refl). lia.
+        * unfold zlen. lia.
   Qed.
 
   Lemma assoc_omap_find (F: ty -> option schema) key : forall fields ps f,
@@ -603,51 +630,14 @@ Section Sound.
       { eapply all2_forallb; [|exact He]. intros x y _ Hxy. eapply IH; eauto. }
       unfold opt_kw. destruct (is_empty_schema s0); cbn [app kws_of forallb kw_ok has_type get_prefix_len skipn negb orb];
         rewrite ?Hall, ?Hnd; reflexivity.
-    - (* TTuple *)
-      apply andb_true_iff in Hok. destruct Hok as [Hoks Hshape].
+    - (* TTuple: fixed tuples, with Unpack segments at any nesting depth *)
       destruct v; try discriminate. destruct j; try discriminate.
-      destruct (no_unpack args) eqn:Hnu; [clear Hshape|].
-      2:{ (* one Unpack segment *)
-        cbn [orb] in Hshape. destruct (find_unpack args) as [u|] eqn:Efu; [|discriminate].
-        apply andb_true_iff in Hshape. destruct Hshape as [Hna Hin].
-        destruct (find_unpack_split _ _ Efu) as (it & Hnth & Hnb & Hargs).
-        rewrite Hnth in Hin, He.
-        apply andb_true_iff in He. destruct He as [He Hrest].
-        apply andb_true_iff in He. destruct He as [He Hle]. apply andb_true_iff in He. destruct He as [_ Hll].
-        apply andb_true_iff in Hrest. destruct Hrest as [Hrest Hafter]. apply andb_true_iff in Hrest. destruct Hrest as [Hbefore Hinner].
-        apply Nat.eqb_eq in Hll. apply Nat.leb_le in Hle.
-        set (na := List.length (skipn (Sn u) args)) in *. set (nm := List.length l - u - na) in *.
-        assert (Hu: u < List.length args) by (apply nth_error_Some; congruence).
-        change (schema_f E dl ar cur (Sn m) (TTuple args) = Some s) in Hs.
-        rewrite Hargs in Hs. rewrite Hargs in Hoks.
-        rewrite <- jvalid_S.
-        replace (JArr l0) with (JArr (firstn u l0 ++ firstn nm (skipn u l0) ++ skipn (u + nm) l0)%list)
-          by (f_equal; symmetry; apply split3; lia).
-        eapply (tuple_unpack_sound n IHs cur base m m' k Hk1 (firstn u args) (skipn (Sn u) args) it
-                  (firstn u l) (firstn nm (skipn u l)) (skipn (u + nm) l)); eauto.
-        - rewrite !firstn_length_le by lia. reflexivity.
-        - rewrite !firstn_length_le by lia. reflexivity.
-        - rewrite !skipn_length. lia.
-        - rewrite skipn_length. fold na. lia. }
-      rewrite (no_unpack_find _ Hnu) in He.
-      apply andb_true_iff in He. destruct He as [He Hl2]. apply andb_true_iff in He. destruct He as [He Hl1].
-      apply Nat.eqb_eq in Hl1. apply Nat.eqb_eq in Hl2.
-      destruct args as [|a0 r].
-      + inv Hs. cbn in Hl2. destruct l; [|discriminate]. destruct l0; [|discriminate]. reflexivity.
-      + cbn beta iota in Hs.
-        match type of Hs with context [omap ?G (a0 :: r)] => destruct (omap G (a0 :: r)) as [targs|] eqn:Eo; [|discriminate] end.
-        inv Hs. destruct (tuple_plain _ _ Hnu _ Eo) as (ss & -> & Ess).
-        rewrite on_tuple_k_spec, spec_plain.
-        pose proof (prefix_ok (@snd bool ty) n IH cur base m m' k Hk1 _ _ _ _ He Ess Hoks) as Hp.
-        pose proof (omap_length _ _ _ Ess) as Hlen.
-        destruct ss as [|s0 ss']; [cbn in Hlen; discriminate|].
-        assert (Hz: z_or_none (zlen (s0 :: ss')) = Some (zlen (s0 :: ss'))).
-        { unfold z_or_none. destruct (Z.eqb_spec (zlen (s0 :: ss')) 0) as [Hz|Hz]; [|reflexivity].
-          unfold zlen in Hz. cbn [List.length] in Hz. lia. }
-        unfold tuple_kws. cbn [t_prefix t_items t_min t_max l_or_none]. rewrite Hz.
-        cbn [app kws_of forallb kw_ok has_type]. rewrite Hp.
-        assert (Hll: Z.of_nat (List.length l0) = zlen (s0 :: ss')) by (unfold zlen; rewrite Hlen, <- Hl2, Hl1; reflexivity).
-        rewrite Hll, Z.leb_refl. reflexivity.
+      change (enc_ok (Sn n) E cur base (TTuple args) (VList l) (JArr l0) = true) in He.
+      change (schema_f E dl ar cur (Sn m) (TTuple args) = Some s) in Hs.
+      change (ty_ok (Sn m') E cur base (TTuple args) = true) in Hok.
+      destruct (tuple_tfacts (Sn n) ltac:(intros; apply IHs; lia) cur base (Sn m) (Sn m') k (TTuple args) l l0 s
+                  ltac:(lia) eq_refl He Hok Hs) as (R & -> & HF).
+      rewrite <- jvalid_S. apply tfacts_jvalid. exact HF.
     - (* TDict *)
       destruct (schema_f E dl ar cur m t1) as [ks|] eqn:Ek; [|discriminate].
       destruct (schema_f E dl ar cur m t2) as [vs|] eqn:Ev; [|discriminate]. inv Hs.
